@@ -63,12 +63,23 @@ class Maker:
     return branch(name, on, rs, ch)
 
 
-def fam_structure(maxn, kinds='PQUG', bs='CFXE'):
+def fam_structure(maxn, kinds='PQUG', bs='CFXE', phase_kw=None, minn=0):
   """every tree with <= maxn nodes over the given kinds"""
   out = []
-  for n in range(0, maxn + 1):
+  for n in range(minn, maxn + 1):
     for f in forests(n, frozenset(kinds)):
-      out.append(program(instantiate(f, Maker(beh(bs)))))
+      out.append(program(instantiate(f, Maker(beh(bs), phase_kw=phase_kw))))
+  return out
+
+
+def fam_monitored():
+  """every phase body wrapped with monitors.monitors(): the wrapper must hand on what the body did
+  (return value, exception) - monitoring is invisible to the model"""
+  out = fam_structure(2, 'PQUG', 'CFXESGIJ', phase_kw=dict(mon=True), minn=1)
+  for limit in (2, 3):
+    out.append(program([phase('p', beh('RCE'), o=opts(limit=limit), mon=True), phase('q', beh('C'))]))
+  for fexc in (False, True):
+    out.append(program([phase('p', beh('EG'), mon=True), phase('q', beh('C'), mon=True)], fexc=fexc))
   return out
 
 
@@ -234,7 +245,8 @@ def fam_plugs(tier):
   out = []
   quick = tier == 'quick'
   plugsets = [(), ('x',), ('y',), ('x', 'y')]
-  for pa, pb, pst in itertools.product(plugsets, plugsets, [None, (), ('x',), ('z',)]):
+  # x and z are two plug classes with the same module and class name
+  for pa, pb, pst in itertools.product(plugsets, plugsets + [('z',), ('x', 'z')], [None, (), ('x',), ('z',)]):
     allp = set(pa) | set(pb) | set(pst or ())
     if not allp:
       continue
